@@ -13,6 +13,7 @@
   `Spec/Lehmann.lean`, `Spec/Bridge.lean` (fully proved).
 -/
 import PomerolModel.Spec.Bridge
+import PomerolModel.Spec.AveragesSpec
 
 namespace Pomerol.Properties.C09
 open Matrix Complex Pomerol Pomerol.Spec
@@ -85,5 +86,115 @@ extracted formula, at every temperature. -/
 example (β e0 : ℝ) : Gen.DM.unnormWeight β e0 e0 = 1 := by
   rw [Bridge.dm_weight]
   simp [shiftedWeight]
+
+/-! ### the LOOPS of the average routines (`Model/Averages.lean`, proofs in `Spec/AveragesSpec.lean`)
+
+`parts : List (Part ℝ ℂ)` is the vector of `DensityMatrixPart`s as the model sees it: for every block
+its Fock states (bit masks), the matrix `U` whose COLUMNS are the eigenvectors (`U f s`: Fock index
+first, eigenstate second), the eigenvalues and the weights.  `WF parts`: in every block these have the
+size of the block.  `Idx parts` = all pairs (block, inner index) = the full Fock space;
+`Vfull parts` = the block-diagonal matrix of all eigenvectors; `gibbs parts β hβ` = the eigen-data read
+off the parts; `numberOp parts i = diag [bit i of f]`, `totalNumberOp parts = diag popcount(f)` are the
+Jordan-Wigner number operators `n_i`, `N` in the Fock basis.  `.ok x` = the routine returns `x` without
+throwing. -/
+section Loops
+open Pomerol.Model.Averages Pomerol.Spec.AveragesSpec
+
+/-- What the library's loops return is the trace of the Gibbs state with the corresponding operator
+on the full Fock space.  If the weights stored in the parts are the Gibbs weights of the stored
+eigenvalues (that is `weights_normalised` above), then
+`getAverageOccupancy(i)` returns `Tr(ρ n_i)`, `getAverageOccupancy()` returns `Tr(ρ N)`,
+`getAverageDoubleOccupancy(i,j)` returns `Tr(ρ n_i n_j)`, and -- for every block-diagonal
+Hamiltonian `H` whose blocks the stored eigenvectors and eigenvalues diagonalise (the solver's
+post-condition `BlockEigen` of C03) -- `getAverageEnergy()` returns `Tr(ρ H)`; none of them throws.
+The returned real numbers are the explicit full-space sums `occValue` … `energyValue`
+(e.g. `Σ_k w_k Σ_f |V_{fk}|² [bit i of f]`). -/
+theorem occupancies_are_traces (parts : List (Part ℝ ℂ)) (hwf : WF parts) (β : ℝ) (hβ : 0 < β)
+    (hw : ∀ k, wt parts k = (gibbs parts β hβ).w k) :
+    (∀ i, DM.avgOccupancy parts i = .ok (occValue parts i) ∧
+      ((occValue parts i : ℝ) : ℂ)
+        = (rhoF (gibbs parts β hβ) (Vfull parts) * numberOp parts i).trace) ∧
+    (DM.avgOccupancyTotal parts = .ok (totalOccValue parts) ∧
+      ((totalOccValue parts : ℝ) : ℂ)
+        = (rhoF (gibbs parts β hβ) (Vfull parts) * totalNumberOp parts).trace) ∧
+    (∀ i j, DM.avgDoubleOccupancy parts i j = .ok (doubleOccValue parts i j) ∧
+      ((doubleOccValue parts i j : ℝ) : ℂ)
+        = (rhoF (gibbs parts β hβ) (Vfull parts) * (numberOp parts i * numberOp parts j)).trace) ∧
+    (∀ Hb : ∀ b : Fin parts.length, Matrix (Fin (parts.get b).dim) (Fin (parts.get b).dim) ℂ,
+      BlockEigen (m := fun b : Fin parts.length => Fin (parts.get b).dim) Hb (Ublk parts)
+        (fun b i => (gibbs parts β hβ).E ⟨b, i⟩) →
+      DM.avgEnergy parts = .ok (energyValue parts) ∧
+      ((energyValue parts : ℝ) : ℂ)
+        = (rhoF (gibbs parts β hβ) (Vfull parts) * blockDiagonal' Hb).trace) := by
+  rw [← rho_eq_rhoF parts _ hw]
+  exact ⟨fun i => AveragesSpec.occupancy_is_trace parts hwf i,
+    AveragesSpec.total_occupancy_is_trace parts hwf,
+    fun i j => AveragesSpec.double_occupancy_is_trace parts hwf i j,
+    fun Hb h => AveragesSpec.energy_is_trace_blocks parts hwf Hb h⟩
+
+/-- Non-vacuity: the concrete 3-mode system `exParts` (vacuum block and one-particle block,
+eigenvectors = columns of a 3×3 orthogonal matrix, non-uniform weights `1/4 | 3/8, 1/4, 1/8`)
+satisfies all hypotheses at `β = 1`, a Hamiltonian with the required post-condition exists, and the
+routine returns `⟨n_0⟩ = 1219/5000`, `⟨N⟩ = 3/4`. -/
+example :
+    WF exParts ∧ (∀ k, wt exParts k = (gibbs exParts 1 one_pos).w k) ∧
+    (∃ Hb, BlockEigen (m := fun b : Fin exParts.length => Fin (exParts.get b).dim) Hb
+      (Ublk exParts) (fun b i => (gibbs exParts 1 one_pos).E ⟨b, i⟩)) ∧
+    DM.avgOccupancy exParts 0 = .ok (1219/5000) ∧ DM.avgOccupancyTotal exParts = .ok (3/4) :=
+  ⟨exParts_wf, exParts_gibbs,
+    ⟨_, blockEigen_reconstruct exParts (Ublk_unitary exParts exParts_orthonormal)⟩,
+    transposed_amplitudes_differ.1, transposed_amplitudes_differ.2.2.2.1⟩
+
+/-- The hypothesis on the weights of `occupancies_are_traces` is what the modelled
+`DensityMatrix::compute` establishes: started on parts of the right sizes (whatever their weights
+were), with any reference energy `e0` (the library passes the ground-state energy), it returns
+normally; the parts it leaves (`computed β e0 parts`: everything unchanged except the weights, which
+are the extracted `unnormWeight`s divided by their sum over ALL blocks) again have the right sizes and
+their weights are the Gibbs weights of the stored eigenvalues. -/
+theorem computed_weights_are_gibbs (parts : List (Part ℝ ℂ)) (hwf : WF parts) (β : ℝ) (hβ : 0 < β)
+    (e0 : ℝ) :
+    DM.compute β e0 parts = .ok (computed β e0 parts) ∧ WF (computed β e0 parts) ∧
+    ∀ k, wt (computed β e0 parts) k = (gibbs (computed β e0 parts) β hβ).w k :=
+  ⟨compute_eq β e0 parts hwf, computed_wf β e0 parts hwf, compute_gibbs β hβ e0 parts hwf⟩
+
+/-- `EnsembleAverage` (the routine behind `⟨c†_i c_j⟩`): the loop over the block pairs of the
+operator -- which only visits blocks mapped to THEMSELVES and only retained ones -- and, inside, the
+loop `Σ_k A.coeff(k,k)·w_k` return the weighted sum of the diagonal of the operator over ALL
+eigenstates, which is `Tr(ρ A_F)`, `A_F` being the operator's matrix in the Fock basis.
+Hypotheses: the size invariants; every block retained; the weights are the Gibbs weights; and
+`EAInput`: the listed block pairs are distinct and in range, the stored diagonal blocks carry the
+diagonal coefficients of the rotated operator `V† A_F V`, and every non-zero element of `V† A_F V`
+lies in a listed block pair -- the latter is the single-target property of C07 (the operator maps a
+block into a single block; `AveragesSpec.support_of_single_target`), which is what makes skipping the
+non-self-mapped blocks harmless. -/
+theorem ensemble_average_is_trace (parts : List (Part ℝ ℂ)) (hwf : WF parts)
+    (hret : ∀ p ∈ parts, p.retained = true) (β : ℝ) (hβ : 0 < β)
+    (hw : ∀ k, wt parts k = (gibbs parts β hβ).w k)
+    (mapping : List (ℕ × ℕ)) (pfl : ℕ → Pomerol.Model.GFPart.SpMat ℂ)
+    (AF : Matrix (Idx parts) (Idx parts) ℂ)
+    (h : EAInput parts mapping pfl ((Vfull parts)ᴴ * AF * Vfull parts)) :
+    EA.prepare mapping pfl parts
+        = .ok (∑ k, ((Vfull parts)ᴴ * AF * Vfull parts) k k * ((gibbs parts β hβ).w k : ℂ)) ∧
+    (∑ k, ((Vfull parts)ᴴ * AF * Vfull parts) k k * ((gibbs parts β hβ).w k : ℂ))
+        = (rhoF (gibbs parts β hβ) (Vfull parts) * AF).trace := by
+  have := AveragesSpec.ensemble_average_is_trace parts hwf hret mapping pfl AF h
+  rw [rho_eq_rhoF parts _ hw] at this
+  simp only [hw] at this
+  exact this
+
+/-- Non-vacuity: for `exParts`, the mapping `[(0,0), (1,1)]` and the stored parts `exPfl`, the operator
+`A_F = V A V†` (`A = exA` read off the stored parts) satisfies `EAInput`, all blocks are retained, and
+the routine returns `2·1/4 + 1·3/8 + 3·1/4 + 0·1/8 = 13/8`. -/
+example :
+    (∀ p ∈ exParts, p.retained = true) ∧
+    EAInput exParts exMapping exPfl
+      ((Vfull exParts)ᴴ * (Vfull exParts * exA * (Vfull exParts)ᴴ) * Vfull exParts) ∧
+    EA.prepare exMapping exPfl exParts = .ok (13/8) :=
+  ⟨exParts_retained,
+    EAInput_fock exParts (block_unitary _ (Ublk_unitary exParts exParts_orthonormal)).1 _ _ _
+      exEAInput,
+    ex_ensemble_average⟩
+
+end Loops
 
 end Pomerol.Properties.C09
